@@ -87,6 +87,8 @@ def correspondence(ctx):
         for style in ("int", "half", "frac") * (1 if quick else 3):
             scenes.append(RC.gen_scene(rng, kind, N, psf, types=["pointsource"], mode="single", pos_styles=(style,), **opts))
         scenes.append(RC.gen_scene(rng, kind, N, psf, types=[str(rng.choice(RC.EXTENDED))], mode="single", **opts))
+        # the catalogue path (render_for_model): an extended source and a point source in one scene
+        scenes.append(RC.gen_scene(rng, kind, N, psf, types=[str(rng.choice(RC.EXTENDED)), "pointsource"], mode="multi", **opts))
         # non-square stamps: only the pixel renderer accepts them by design of the default renderer
     for N, s0, s1 in [(14, 5, 3), (13, 4, 7)]:
         psf = RC.asym_psf(rng, s0, s1)
@@ -168,6 +170,13 @@ def oracle_child(payload):
                 d = float(np.abs(obs - ref).max()) / max(float(np.abs(ref).max()), 1e-30)
                 if not d <= 2e-5:
                     fails.append(("direct-conv", f"extended source differs from the direct spatial convolution of the intrinsic image by {d:.2e} of the peak"))
+                # the same source as the only entry of a catalogue (the multi-source path used by FitMulti and the multi-band fitters)
+                pm = {f"{k}_0": v for k, v in p.items()}
+                obs_m = np.asarray(R.render_for_model(pm, ["sersic"], ""), dtype=np.float64)
+                d = float(np.abs(obs_m - ref).max()) / max(float(np.abs(ref).max()), 1e-30)
+                if not d <= 2e-5:
+                    fails.append(("direct-conv-multi", f"a one-source catalogue rendered through render_for_model differs from the direct spatial convolution of "
+                                                       f"the intrinsic image by {d:.2e} of the peak"))
         except Exception as e:
             fails.append(("exception", f"{type(e).__name__}: {str(e)[:200]}"))
         out.append(dict(fails=fails))
